@@ -76,12 +76,16 @@ OUTSIDE = ["1-d integer-list / boolean-mask indexers (NumPy and dask) and full-s
            "the body of the chunk function setitem (NumPy calls): modelled by its NumPy meaning, run concretely by every e2e witness"]
 
 BOUNDS = {
-    "quick": dict(chunks_per_axis="1..3 (1-d), <=2 (2-d)", chunk_size="[0,3] (1-d), [1,2]/[0,2] (2-d)", start_stop="[-dim-2, dim+2] or None",
-                  step="{None,1,2,-1,-2} (+3,-3 for parse)", int_index="[-dim-2, dim+1]", ndim="1, 2",
-                  value="scalar, selection shape, size-1 axes, missing leading axes, one extra leading axis"),
-    "thorough": dict(chunks_per_axis="1..4 (1-d), <=3 (2-d)", chunk_size="[0,4] (1-d), [0,3] (2-d)", start_stop="[-dim-3, dim+3] or None",
-                     step="{None,1,2,3,-1,-2,-3}", int_index="[-dim-2, dim+1]", ndim="1, 2",
-                     value="scalar, selection shape, size-1 axes, missing leading axes, one extra leading axis"),
+    "quick": dict(chunks_per_axis="2..3 (1-d), 2x2 / 2x1 (2-d)", chunk_size="[0,3] / [1,3] (1-d), [1,2] (2-d; [0,2] for int,int)",
+                  start_stop="[-dim-2, dim+2] or None", step="{None,2,-1,-2}", int_index="[-dim-2, dim+1] (1-d and int,int), [-dim, dim-1] next to a slice",
+                  ndim="1, 2", value="scalar, selection shape, size-1 axes, missing leading axes, one extra leading size-1 axis (subset per obligation)",
+                  parse="dim in [1,8], start/stop in [-dim-3, dim+3] or None, step {None,2,3,-1,-2,-3}; 2-d int+slice: dims in [1,4], step {1,-1,2,-2}",
+                  fancy="2-d, chunks (a,b) x (2,1) with a,b in [1,2]; list / mask / dask mask x {int -1, ':', '::-1'} x 3 list shapes x 3 value shapes"),
+    "thorough": dict(chunks_per_axis="1..4 (1-d), 2x2 / 3x2 (2-d)", chunk_size="[0,4] (1-d; [1,3] for 4 chunks), [0,3] / [1,3] (2-d)",
+                     start_stop="[-dim-3, dim+3] or None", step="{None,2,3,-1,-2,-3}", int_index="[-dim-2, dim+1] (1-d and int,int), [-dim, dim-1] next to a slice",
+                     ndim="1, 2", value="scalar, selection shape, size-1 axes, missing leading axes, one extra leading size-1 axis (all for most obligations)",
+                     parse="dim in [1,12], start/stop in [-dim-4, dim+4] or None, step {None,1..4,-1..-4}; 2-d int+slice: dims in [1,8]",
+                     fancy="2-d, chunks (a,b) x (2,1) with a,b in [1,3]; list / array / mask / dask mask x {int 0, int -1, ':', '::-1'} x 3 list shapes x 3 value shapes"),
 }
 
 # NOTE (findings made with this harness, see known_findings.json):
@@ -89,6 +93,9 @@ BOUNDS = {
 #    although NumPy accepts the no-op (setitem_array: 'Empty slices can only be assigned size 1 values').  Every set*[...] obligation declares
 #    the 0/1 model variable empty_big_value (1 iff some slice selects nothing and some value axis is longer than 1) so that the known-finding
 #    predicate "empty_big_value == 1" names exactly that region; nothing is carved out of the checks themselves.
+#  * witness level (e2e extra of the 2-d obligations, dask boolean mask on the first axis, value with fewer axes than the selection whose first
+#    axis is longer than the mask): x[dask_mask, :] = np.array([10, 20, 30]) on a (1, 3) array raises ValueError('... greater then corresponding
+#    boolean index size') because setitem_array zips implied_shape_positions without the offset.  Model variable mask_lowdim_value names it.
 #  * repaired in /repo after this harness reported them: an integer index before a negative-step slice indexed the value axes with array
 #    positions (x[0, ::-1] = 5 raised IndexError, 3-d: wrong values); an empty negative-step selection had a negative implied length
 #    (x[0:2:-1] = np.array([]) raised); a value with an extra leading size-1 axis next to an integer index failed at compute time
@@ -297,6 +304,11 @@ def mk_set(kinds, nbs, steps, maxc, minc, pad, cfgs=None, short=False, int_oob=T
         # model variable naming the region of the recorded finding (see NOTE above)
         ebv = e.int("empty_big_value", 0, 1)
         e.assume(lambda: (ebv == 1) == (_any([lens[ax] == 0 for ax in sel_axes]) & _any([n > 1 for n in vshape])))
+        if n_sel == 2 and (steps[sel_axes[0]] or 1) > 0:
+            # region of a witness-level finding (e2e extra with a dask boolean mask on the first axis): the value has fewer axes than
+            # the selection and its first axis is longer than the mask
+            mlv = e.int("mask_lowdim_value", 0, 1)
+            e.assume(lambda: (mlv == 1) == ((lead + nv == 1) & (vshape[0] > dims[sel_axes[0]] if lead + nv == 1 else False)))
         return lss, dims, inds, ps, cfg, vshape
 
     def the_index(inds):
